@@ -28,6 +28,10 @@ def c01(ctx, rep):
     rules_tables.search_preconditions(ctx, rep)
     rules_tables.search_callsite(ctx, rep)
     rules_api.detection(ctx, rep)
+    rules_api.create(ctx, rep)
+    rules_api.load_api(ctx, rep)
+    rules_bits.storage(ctx, rep)
+    rules_api.crypt(ctx, rep)
     rep.assumptions += ['injected NFC/NFKD agree with Unicode normalisation (Python unicodedata is the oracle for the table constants)',
                         'the comparator bodies implement the reference matching rule (C08)']
     return ('conjunction of necessary conditions that is also the proof skeleton of the round trip: packing bijection and symmetric coin '
@@ -51,11 +55,13 @@ def c02(ctx, rep):
 
 
 def c03(ctx, rep):
+    rules_effects.state_reads(ctx, rep)
     rules_bounds.helper_contracts(ctx, rep)
     rules_bits.packing(ctx, rep, want=('layout',))
     rules_api.encode_api(ctx, rep)
     rules_bits.mul2_and_horner(ctx, rep)
     rules_tables.registry_and_frozen(ctx, rep)
+    rules_api.inject(ctx, rep)
     return ('bit-provenance abstract interpretation of the packer and of polyseed_encode compared bit for bit with the published layout; '
             'check word = GF(2048) evaluation (C02 lemma); separators and composition flags from the constant tables')
 
@@ -72,6 +78,7 @@ def c05(ctx, rep):
     rules_bounds.helper_contracts(ctx, rep)
     rules_api.encode_api(ctx, rep)
     rules_api.decoders(ctx, rep)
+    rules_api.detection(ctx, rep)
     return ('coin enters only coefficient 1, unmasked, on both sides (bitflow exit summaries of encode and of both decoders); L^1 is '
             'invertible (matrices extracted from the code), so a non-zero coin difference always changes the evaluation')
 
@@ -80,6 +87,9 @@ def c06(ctx, rep):
     rules_bits.storage(ctx, rep)
     rules_bits.storage_total(ctx, rep)
     rules_api.load_api(ctx, rep)
+    rules_api.create(ctx, rep)
+    rules_api.decoders(ctx, rep)
+    rules_api.crypt(ctx, rep)
     return ('bit-provenance abstract interpretation of the storage codec: symbolic image of store; trace-partitioned load whose accept '
             'partition is the inverse of store with every input bit carried or pinned by a guard; exit summaries of polyseed_load for precedence and cleanup')
 
@@ -105,6 +115,7 @@ def c10(ctx, rep):
     rules_bits.storage(ctx, rep)
     rules_bits.storage_total(ctx, rep)
     rules_effects.frame(ctx, rep, cfgs=['NsS'])
+    rules_effects.state_reads(ctx, rep)
     return ('bitflow on the feature predicates and on polyseed_enable_features partitioned on the three mask bits; exit summaries of the four '
             'entry points; feature bits carried by packing, storage and crypt (bit identities)')
 
@@ -118,6 +129,7 @@ def c12(ctx, rep):
 
 
 def c13(ctx, rep):
+    rules_effects.state_reads(ctx, rep, cfgs=ctx.configs('path'))
     rules_bounds.helper_contracts(ctx, rep)
     _linit(ctx, rep)
     rules_api.inject(ctx, rep)
@@ -157,6 +169,7 @@ def c16(ctx, rep):
 
 
 def c20(ctx, rep):
+    rules_effects.visibility(ctx, rep)
     rules_effects.frame(ctx, rep)
     rules_effects.who_may_call(ctx, rep)
     rep.assumptions += ['setup (polyseed_inject / polyseed_enable_features) happens-before the concurrent phase',
@@ -166,6 +179,7 @@ def c20(ctx, rep):
 
 
 def c18(ctx, rep):
+    rules_effects.visibility(ctx, rep)
     rules_effects.who_may_call(ctx, rep)
     rules_effects.frame(ctx, rep, cfgs=ctx.configs('path'))
     rules_api.inject(ctx, rep)
@@ -185,6 +199,7 @@ def c07(ctx, rep):
     rules_tables.normalisation(ctx, rep)
     rules_tables.search_preconditions(ctx, rep)
     rules_tables.search_callsite(ctx, rep)
+    rules_api.detection(ctx, rep)
     rep.assumptions += ['Python unicodedata (UCD 14/15) is the oracle for NFC/NFKD of the table constants',
                         'that the four C comparator bodies implement the reference matching rule for all strings is C08\'s subject']
     return ('exhaustive constant-table analysis over the IR initialisers of all 10 x 2048 words: registry, frozen content against '
@@ -298,8 +313,12 @@ def _selftest(pid, rep):
     sd = os.path.join(VERIF, 'seeded')
     for d in sorted(os.listdir(sd)):
         mp = os.path.join(sd, d, 'meta.json')
-        if os.path.exists(mp) and pid in (json.load(open(mp)).get('detected_by') or []):
+        if not os.path.exists(mp): continue
+        m_ = json.load(open(mp))
+        if pid in (m_.get('detected_by') or []):
             jobs.append(('mutant', d, os.path.join(sd, d, 'patch.diff')))
+        elif pid in (m_.get('detected_by_thorough_only') or []):
+            jobs.append(('mutant-thorough', d, os.path.join(sd, d, 'patch.diff')))      # visible only in the configuration matrix (assertion-enabled / shared builds)
     ed = os.path.join(VERIF, 'selftest', 'equivalents')
     for f in sorted(os.listdir(ed)):
         if f.endswith('.diff'): jobs.append(('equivalent', f[:-5], os.path.join(ed, f)))
@@ -314,8 +333,8 @@ def _selftest(pid, rep):
             r = subprocess.run('patch -p1 --fuzz=3 -s < %s' % patch, shell=True, cwd=d, capture_output=True, text=True)
             if r.returncode != 0: return kind, name, None
             env = dict(os.environ, POLYSEED_TREE=d, PSA_EVIDENCE_DIR=os.path.join(d, '_ev'), PSA_NESTED='1')
-            r = subprocess.run([os.path.join(VERIF, 'check'), pid, '--tier', 'quick'], capture_output=True, text=True, env=env, cwd=VERIF)
-            return kind, name, r.returncode
+            r = subprocess.run([os.path.join(VERIF, 'check'), pid, '--tier', 'thorough' if kind == 'mutant-thorough' else 'quick'], capture_output=True, text=True, env=env, cwd=VERIF)
+            return kind.split('-')[0], name, r.returncode
         finally:
             shutil.rmtree(d, ignore_errors=True)
     fired = {}; silent = {}
